@@ -425,6 +425,7 @@ def run(ctx):
     r5(ctx)
     C13.r2(ctx)
     C13.r3(ctx)   # a connect that fails (refused, timed out) closes the socket it auto-bound: no dead entry keeps an ephemeral binding
+    C13.r1(ctx)   # a handshaking child that is aborted (RST or retransmit exhaustion) is reaped with its binding, whichever path aborted it
     C13.r10(ctx)  # a close always runs to Closed (every transition of the close handshake is implemented): a socket parked in CLOSING keeps its binding for ever
     C13.r4(ctx)   # closing a wildcard listener sweeps its half-open children: no orphan keeps the listener's port bound
     C19.r3(ctx)
